@@ -54,6 +54,7 @@ pub struct Ctl {
     pub polls: u64,
     pub machinery_error: Option<String>,
     pub next_op: u32,
+    pub livelock: bool,
 }
 
 impl Ctl {
@@ -70,6 +71,7 @@ impl Ctl {
             polls: 0,
             machinery_error: None,
             next_op: 0,
+            livelock: false,
         }
     }
 }
@@ -237,6 +239,27 @@ impl<'a, T> Controlled<'a, T> {
     }
 }
 
+pub const POLL_LIMIT: u64 = 20_000;
+
+/// Hook code polled this often within one execution means the runtime never went idle: some loop of the code
+/// under test spins. Recorded once in the trace; the spinning task is then ended by a panic so that the
+/// execution can finish and be reported with its replay.
+fn livelock_check(prev: Option<usize>) {
+    let hit = with(|c| {
+        if c.polls > POLL_LIMIT && !c.livelock {
+            c.livelock = true;
+            c.current = prev;
+            true
+        } else {
+            false
+        }
+    });
+    if hit {
+        ev(EvK::Livelock { polls: POLL_LIMIT });
+        panic!("injected:livelock-watchdog");
+    }
+}
+
 struct PollGuard {
     prev: Option<usize>,
     inst: Arc<Inst>,
@@ -299,6 +322,7 @@ impl<'a, T> Future for Controlled<'a, T> {
                 c.polls += 1;
                 std::mem::replace(&mut c.current, Some(this.owner))
             });
+            livelock_check(prev);
             let guard = PollGuard { prev, inst: inst.clone() };
             let r = this.inner.as_mut().poll(cx);
             drop(guard);
@@ -316,6 +340,7 @@ impl<'a, T> Future for Controlled<'a, T> {
             c.polls += 1;
             std::mem::replace(&mut c.current, Some(this.owner))
         });
+        livelock_check(prev);
         let guard = PollGuard {
             prev,
             inst: inst.clone(),
